@@ -157,6 +157,8 @@ package dag
 //@        arg(0) == transaction.Data() && len(arg(1)) == 1 && arg(1)[0] == ret(call jws.WithKey #1)
 //@     && arg(call jws.WithKey #1, 0) == jwa.KeyAlgorithm(jwa.SignatureAlgorithm(transaction.SigningAlgorithm()))
 //@     && arg(call jws.WithKey #1, 1) == signingKey
+//@     && did(call crypto.CheckAlgorithmFitsKey #1) && isNilIface(ret(call crypto.CheckAlgorithmFitsKey #1))
+//@     && arg(call crypto.CheckAlgorithmFitsKey #1, 0) == jwa.SignatureAlgorithm(transaction.SigningAlgorithm()) && arg(call crypto.CheckAlgorithmFitsKey #1, 1) == signingKey
 //@     && ( !isNilIface(transaction.SigningKey())
 //@          ==> did(call (jwk.Key).Raw #1) && isNilIface(ret(call (jwk.Key).Raw #1)) && arg(call (jwk.Key).Raw #1, 0) == transaction.SigningKey() )
 //@     && ( isNilIface(transaction.SigningKey())
